@@ -61,8 +61,11 @@ func (s *sys) newLimiter(capacity int) *ratelimit.TokenLimiter {
 		shortSet.Add(period, avg, burst)
 		longSet.Add(longPeriod, longAvg, burst)
 		opts = append(opts, ratelimit.ExtractRates(ratelimit.RateExtractorFunc(func(r *http.Request) (*ratelimit.RateSet, error) {
-			if r.Header.Get("Rate") == "long" {
+			switch r.Header.Get("Rate") {
+			case "long":
 				return longSet, nil
+			case "none":
+				return nil, nil // "no particular rates for this one": the library does not expect it and the request panics
 			}
 			return shortSet, nil
 		})))
@@ -89,7 +92,12 @@ func newSys(capacity int, varRates bool) *sys {
 	return s
 }
 
-func (s *sys) do(tl *ratelimit.TokenLimiter, src string, amount int64, rate string) string {
+func (s *sys) do(tl *ratelimit.TokenLimiter, src string, amount int64, rate string) (out string) {
+	defer func() {
+		if p := recover(); p != nil {
+			out = "panic" // net/http recovers a panicking request and carries on serving the others
+		}
+	}()
 	before := s.served
 	rec := httptest.NewRecorder()
 	req := httptest.NewRequest("GET", "http://x/", nil)
@@ -134,6 +142,10 @@ func alphabetVar() ([]string, []opDesc) {
 		names = append(names, fmt.Sprintf("Advance(%v)", d))
 		descs = append(descs, opDesc{1, "", 0, d, ""})
 	}
+	// a request of b that FAILS inside the limiter (its rate extractor returns no set at all and the request panics;
+	// the server recovers it): a matter of that request only, every other source's decisions go on as before
+	names = append(names, "ReqFailing(b,1,extractor-returns-no-set)")
+	descs = append(descs, opDesc{2, "b", 1, 0, "none"})
 	return names, descs
 }
 
@@ -247,6 +259,18 @@ func model(capacity, depth int, varRates bool) *lib.Model[*sys] {
 			clock.Advance(d.d)
 			return ""
 		}
+		if d.kind == 2 {
+			got := s.do(s.shared, d.src, d.amount, d.rate)
+			if got != "panic" {
+				// the library copes with it: an ordinary request then (the same rate names the same set for the shadow)
+				s.do(s.shadow[d.src], d.src, d.amount, d.rate)
+				return got + " (no panic)"
+			}
+			if held := lib.HeldLocks(s.shared); len(held) > 0 {
+				return got + " !!C14:limiter-left-locked-by-a-failed-request!!" + fmt.Sprintf("a request of source %s panicked inside the limiter and left its lock(s) %v held: no request of ANY source gets a decision from now on", d.src, held)
+			}
+			return got
+		}
 		obs, key, detail := s.step(d.src, d.amount, d.rate)
 		if key != "" {
 			return obs + " !!" + key + "!!" + detail
@@ -265,8 +289,11 @@ func model(capacity, depth int, varRates bool) *lib.Model[*sys] {
 	}
 	m.OnTransition = func(s *sys, hist []int, obs []string, rep *lib.Report) {
 		o := obs[len(obs)-1]
-		if descs[hist[len(hist)-1]].kind != 0 {
+		if descs[hist[len(hist)-1]].kind == 1 {
 			return
+		}
+		if strings.HasPrefix(o, "panic") {
+			rep.Count("requests_that_panicked_inside_the_limiter")
 		}
 		rep.Count("requests")
 		if varRates {
@@ -308,7 +335,7 @@ func Run(tier string, sh lib.Shard, rep *lib.Report) {
 	rep.Bounds["capacities"] = []int{1, 2, 3, 0}
 	rep.Bounds["rate"] = "1s: average 1, burst 2 (TTL 11s); per-request-rates variants (capacity 1, 2): each request names 1s:1/2 (TTL 11s) or 3s:3/2 (TTL 31s)"
 	rep.Rule = "BFS over all histories (exact keys, depth-bounded) of Req(source in {a,b,c}, amount)/Advance on a shared real TokenLimiter and one solo-shadow real limiter per source; every decision must equal the shadow's; beyond capacity exactly one admissible victim (expired, else minimal expiry; read from private state) is forgotten and only its shadow is reset; non-trivial = requests made while several sources are tracked"
-	rep.Require("requests", "rejections", "requests_with_several_tracked_sources", "evictions_observed", "per_request_rate_models", "oversized_requests_refused")
+	rep.Require("requests", "rejections", "requests_with_several_tracked_sources", "evictions_observed", "per_request_rate_models", "oversized_requests_refused", "requests_that_panicked_inside_the_limiter")
 	for _, capacity := range []int{1, 2, 3, 0} {
 		m := model(capacity, depth, false)
 		m.Shard, m.ShardLevel = sh, 2
